@@ -236,6 +236,29 @@ def main(inp, outp):
             res["evaluations"] += 1
             clause("forward and backward targets: splitting the request changes the result by interpolation / truncation error only (2 m over 2 orbits)",
                    np.linalg.norm(one[:3] - two[:3]) <= 2.0, "rk/split-composition", f"direction {sgn}: {np.linalg.norm(one[:3] - two[:3]):.4g} m", data)
+    # ---- the tolerance configured by the user is the one in force after the orbit is copied / converted, and when a propagation is
+    # continued from an orbit that was returned (its own attached propagator).  RKF54 with 90 s nominal steps and tol = 1e-6 m: steps are
+    # rejected and shortened under that tolerance, never under the default one (1e-3), and the two differ by 25-90 mm after 60 steps.
+    # Allowance 12 mm on top of 20 x tol per nominal step: the target falls inside the LAST interval of the integration table (one-sided
+    # Lagrange window: 1-4 mm at 90 s nodes for these orbits) and dates are float MJDs (0.6 us x 7.5 km/s = 4.5 mm).  Measured on the
+    # repaired tree: <= 6.9 mm; with the propagator copy losing its tolerance: >= 23.6 mm.
+    for kepx in ([7000e3, 0.1, 0.9, 1, 2, 0.5], [8000e3, 0.15, 0.4, 1, 2, 2.5], [6900e3, 0.001, 1.7, 0, 0, 0]) if job.get("tolerance_kept") else ():
+        earth = get_body("Earth")
+        for sgn in (1, -1):
+            hh, tol, n1, n2 = 90, 1e-6, 20, 60
+            propc = KeplerNum(timedelta(seconds=hh), earth, method="rkf54", tol=tol)
+            oc = Orbit(kepx, DATE, "keplerian", "EME2000", propc).copy(form="cartesian")
+            truth = np.asarray(Orbit(kepx, DATE, "keplerian", "EME2000", "Kepler").propagate(DATE + timedelta(seconds=sgn * n2 * hh)).copy(form="cartesian"), float)
+            direct = np.asarray(oc.propagate(DATE + timedelta(seconds=sgn * n2 * hh)), float)
+            first = oc.propagate(DATE + timedelta(seconds=sgn * n1 * hh))
+            second = np.asarray(first.propagate(DATE + timedelta(seconds=sgn * n2 * hh)), float)
+            e1, e2 = float(np.linalg.norm(direct[:3] - truth[:3])), float(np.linalg.norm(second[:3] - truth[:3]))
+            res["evaluations"] += 1
+            bound = 20 * tol * n2 + 12e-3
+            clause("the tolerance given to an adaptive propagator stays in force when the orbit is copied / converted and when a propagation is continued "
+                   "from a returned orbit (20 x tol per nominal step + 12 mm)", e1 <= bound and e2 <= bound, "rk/tolerance-kept[rkf54]",
+                   f"rkf54, 90 s, tol 1e-6, direction {sgn}, orbit {kepx[:3]}: error of the direct request {e1 * 1e3:.1f} mm, of the request split at step {n1} and "
+                   f"continued from the returned orbit {e2 * 1e3:.1f} mm (allowed {bound * 1e3:.1f} mm)", {"kep": kepx, "direction": sgn})
     res["nontrivial"] = sorted(set(res["nontrivial"]))[:300]
     with open(outp, "w") as fh:
         json.dump(res, fh)
